@@ -572,8 +572,11 @@ fn c38_row(rep: &mut Report, rig: &Rig, row: &Value, default_limit: u64, salt: u
             }
             (ok, json!({"updated": obs.updated, "stored_len": stored, "snapshot_reason": obs.snapshot_reason}))
         }
-        "delta" => {
-            srv.publish([(small.clone(), Bytes::from_static(b"a small object"))].into_iter().collect());
+        "delta" | "delta_replace" => {
+            let mut first: Objects = [(small.clone(), Bytes::from_static(b"a small object"))].into_iter().collect();
+            // replacing: the copy already holds an object of that name, the delta element carries its hash
+            if place == "delta_replace" { first.insert(big.clone(), Bytes::from_static(b"the object before it grew")); }
+            srv.publish(first);
             match client_run(&collector, &rig.ca, srv, &[]) {
                 Ok(o) if o.updated => {}
                 _ => { rep.add_note(C38, "unrealised_rows", 1); rep.divergence(C38, format!("row {row}: the first update failed")); return }
@@ -796,8 +799,35 @@ fn c29_main(args: &Args) -> i32 {
         }
         cases.push(FbCase { row: row.clone(), rig, ca, ca2, cfg, ok });
     }
+    // histories: a copy whose best-before time has passed is made current again by a successful update that has
+    // nothing to fetch (304 with validators; 200 with the same serial without), then an update fails
+    let mut touched: Vec<(Rig, bool)> = Vec::new();
+    for etag in [true, false] {
+        let rig = Rig::new(&factory);
+        let base = rig.srv.rsync_base();
+        let mut published = Published::default();
+        published.files.insert(format!("{base}ca.mft"), Bytes::from_static(b"not a manifest"));
+        rig.bed.publish(&published);
+        rig.srv.set_validators(etag, etag);
+        rig.srv.publish([(format!("{base}o1.roa"), Bytes::from_static(b"object one"))].into_iter().collect());
+        let mut prime = rig.bed.config();
+        prime.disable_rrdp = false;
+        prime.disable_rsync = true;
+        prime.refresh = std::time::Duration::from_secs(1);
+        prime.rrdp_fallback_time = std::time::Duration::from_secs(0);
+        let collector = rig.collector(&prime);
+        let ok = matches!(client_run(&collector, &rig.ca, &rig.srv, &[]), Ok(o) if o.updated);
+        if ok { touched.push((rig, etag)); } else { rep.divergence(C29, "history: the first update failed".to_string()); }
+    }
     // --- phase 2: let the copies of the "stale" rows expire (best-before = update + 1..2 s)
     std::thread::sleep(std::time::Duration::from_millis(3300));
+    for (rig, etag) in touched.iter() {
+        let res = catch(std::panic::AssertUnwindSafe(|| c29_touched(rig, *etag)));
+        match res {
+            Ok(r) => rep.absorb(r),
+            Err(msg) => rep.violation(C29, "panic", format!("panic: {msg}"), json!({"history": "touched"}), json!({"panic": msg})),
+        }
+    }
     // --- phase 3: the runs
     for case in cases.iter() {
         let res = catch(std::panic::AssertUnwindSafe(|| c29_case(case)));
@@ -807,6 +837,55 @@ fn c29_main(args: &Args) -> i32 {
         }
     }
     rep.write(args)
+}
+
+/// See `c29_main`: expired copy, successful update with nothing to fetch, failed update under policy `stale`.
+fn c29_touched(rig: &Rig, etag: bool) -> Report {
+    let mut rep = Report::new("rrdp");
+    let how = if etag { "304" } else { "200-same-serial" };
+    let ctx = json!({"history": ["update (copy expires)", format!("successful update with nothing to fetch ({how})"), "failed update"],
+                     "policy": "stale", "rrdp": true, "rsync": true});
+    let now = chrono::Utc::now().timestamp();
+    let expired = rig.read_archive().map(|l| l.best_before < now).unwrap_or(false);
+    if !expired { rep.add_note(C29, "unrealised_rows", 1); rep.divergence(C29, format!("history {how}: the copy did not expire")); return rep }
+    let mut cfg = rig.bed.config();
+    cfg.disable_rrdp = false;
+    cfg.disable_rsync = false;
+    cfg.rrdp_fallback = FallbackPolicy::Stale;
+    cfg.refresh = std::time::Duration::from_secs(300);
+    cfg.rrdp_fallback_time = std::time::Duration::from_secs(600);
+    let collector = rig.collector(&cfg);
+    // the update that has nothing to fetch
+    let obs = match client_run(&collector, &rig.ca, &rig.srv, &[]) { Ok(o) => o, Err(e) => { rep.divergence(C29, format!("history {how}: {e}")); return rep } };
+    let fetched: Vec<String> = obs.requests.iter().filter(|q| !matches!(q.kind, ReqKind::Notify)).map(|q| format!("{:?}", q.kind)).collect();
+    if !obs.updated || !fetched.is_empty() || (etag != (obs.notify_status == 304)) {
+        rep.add_note(C29, "unrealised_rows", 1);
+        rep.divergence(C29, format!("history {how}: the second update was not a successful update with nothing to fetch (updated {}, status {}, fetched {fetched:?})", obs.updated, obs.notify_status));
+        return rep
+    }
+    // the failing update
+    rig.srv.set_faults(FaultPlan { notify_status: Some(500), ..Default::default() });
+    rig.bed.take_rsync_log();
+    let run = collector.start();
+    let repo = run.repository(&rig.ca);
+    let decision = match repo.as_ref() { Ok(Some(r)) if r.is_rrdp() => "rrdp", Ok(Some(_)) => "rsync", Ok(None) => "none", Err(_) => "failed" };
+    drop(repo);
+    drop(run);
+    rig.srv.clear_faults();
+    let rsync_log = rig.bed.take_rsync_log();
+    let local = rig.read_archive();
+    let observed = json!({"decision": decision, "rsync_log": rsync_log,
+                          "best_before_minus_now": local.as_ref().map(|l| l.best_before - chrono::Utc::now().timestamp())});
+    rep.eval(C29);
+    rep.trace(C29);
+    let sig = format!("policy-stale/current-by-{how}/rrdp-on/rsync-on/notify-yes");
+    rep.nontrivial(C29, sig.clone());
+    // no collector repository at all: the engine then uses its stored data
+    if decision != "none" || !rsync_log.is_empty() {
+        rep.violation(C29, &sig, format!("the copy was updated successfully a moment ago ({how}) and is current; the failed update must not fall back (stored data is used), Run::repository gives {decision}"),
+            ctx, observed);
+    }
+    rep
 }
 
 fn c29_case(case: &FbCase) -> Report {
